@@ -36,6 +36,8 @@ class Oct:
             return True
         if len(items) > 2 or any(abs(k) != 1 for _, k in items):
             return False
+        if any(v not in self.ix for v, _ in items):
+            return False
         # DBM encoding: node 2i = +x_i, node 2i+1 = -x_i ;  m[a][b] bounds  V_b - V_a <= m[a][b]
         def node(v, k):
             return 2 * self.ix[v] + (0 if k > 0 else 1)
